@@ -9,6 +9,7 @@ from vlib import run_pair, DriverResult, sh, GOENV, HARNESS, BIN, WORK
 PID = "C15"
 MODEL_VOS = ["model/Deadline.vo", "model/Lifecycle.vo"]
 ASSUMPTIONS = [
+    "simultaneous-close scenarios (one end's Mux.Close while the other end closes two of three sessions of the shared underlay 100/300/1200 ms later) exercise the error path of the close response (output() failing inside inputClose); the Lifecycle model's lock discipline theorem covers closeWithError and the output loops, not inputClose's response path, which is tied by these scenarios and the goroutine-dump cause signatures",
     "which Go statements form one atomic step of the Lifecycle model is a modelling decision (mutex-protected sections and single channel operations are one step); the -race run supports it, it is not proved",
     "the theorems cover the state machine of one session end with the network / peer / timers as environment labels; promptness in seconds, goroutine leaks and data races are runtime facts observed by the drivers",
     "faketime virtual clock (Go runtime) for all timing observations; tolerance 60 ms for 'at the same time'",
